@@ -171,6 +171,35 @@ def check(ctx):
                     ctx.count("reference-variant")
                     if not ok:
                         ctx.fail("oracle", f"C11/oracle/reference-projector/order{order}", f"{name} order {order} cutoff={'yes' if near is not None else 'no'}: span of c_pt differs from the unit eigenspace of projector_permutation_lat_trans_O{order} ({msg})", replay=rep, has_input=True)
+    # ---------------- reference variant of the coset projector (matrix representations, order 2; first-order sum)
+    from gens import base_cells as _bc, make_supercell as _ms, atoms_of as _ao
+    from symfc.spg_reps import SpgRepsO2
+    from symfc.spg_reps.spg_reps_O2 import SpgRepsO2MatrixReps
+    from symfc.utils.utils_O2 import get_compr_coset_reps_sum, get_compr_coset_projector_O2, _get_atomic_lat_trans_decompr_indices
+    from symfc.utils.permutation_tools_O2 import compr_permutation_lat_trans_O2
+    ref_cells = [("mono_P", (1, 1, 1)), ("tri2_Pm1", (2, 1, 1)), ("hcp", (1, 1, 1)), ("p4_general", (1, 1, 1)), ("tri1", (3, 1, 1))]
+    if not ctx.quick:
+        ref_cells += [("p3_general", (1, 1, 1)), ("wurtzite", (1, 1, 1)), ("ortho_C", (1, 1, 2)), ("rhombo2", (2, 1, 1)), ("nacl_prim", (1, 1, 1))]
+    for cname, diag in ref_cells:
+        for shuffle in (False, True):
+            sc = _ms(_bc()[cname], diag, rng=rng, shuffle=shuffle)
+            at = _ao(sc)
+            rep = {"cell": sc["name"], "lattice": np.asarray(sc["lattice"]).tolist(), "positions": np.asarray(sc["positions"]).tolist(), "numbers": [int(z) for z in sc["numbers"]]}
+            ctx.case({"cell": sc["name"], "variant": "SpgRepsO2MatrixReps / get_compr_coset_reps_sum"}, nontrivial=True)
+            ctx.count("reference-variant")
+            try:
+                rf, rr = SpgRepsO2(at), SpgRepsO2MatrixReps(at)
+                tp = rf.translation_permutations
+                adi = _get_atomic_lat_trans_decompr_indices(tp)
+                c_pt = compr_permutation_lat_trans_O2(tp, atomic_decompr_idx=adi, fc_cutoff=None, verbose=False)
+                fast = get_compr_coset_projector_O2(rf, fc_cutoff=None, atomic_decompr_idx=adi, c_pt=c_pt).toarray()
+                ref = (c_pt.T @ get_compr_coset_reps_sum(rr) @ c_pt).toarray()
+            except Exception as e:  # noqa: BLE001
+                ctx.fail("oracle", "C11/oracle/reference-coset/order2", f"{sc['name']}: the reference coset sum raised {type(e).__name__}: {e}", replay=rep, has_input=True)
+                continue
+            dev = float(np.abs(fast - ref).max()) if fast.shape == ref.shape else float("inf")
+            if not dev <= 1e-10:
+                ctx.fail("oracle", "C11/oracle/reference-coset/order2", f"{sc['name']}: get_compr_coset_projector_O2 differs from c_pt^T get_compr_coset_reps_sum(SpgRepsO2MatrixReps) c_pt by {dev:.2e}", replay=rep, has_input=True)
     # ---------------- threads (thorough only): a fit computed with 1 and 16 threads in fresh processes
     if not ctx.quick:
         script = ("import sys,json,numpy as np\nsys.path.insert(0,'%s')\nfrom gens import *\nfrom symfc import Symfc\nrng=np.random.default_rng(5)\n"
